@@ -116,9 +116,10 @@ def apply_op(mgr, model, op, res, hist):
                 got = True
             except ValueError:
                 got = False
-            except Exception as e:  # noqa
-                res.viol("add_entry_raised_other_than_ValueError", history=hist, error=repr(e)[:200])
-                got = None
+            except Exception as e:  # noqa  (the property says "rejected and reported", not which exception type)
+                res.count("add_entry_rejections_with_other_exception_type")
+                res.add("rejection_exception_types", type(e).__name__)
+                got = False
             if got is not None and got != want:
                 res.viol("add_entry_accept_reject_wrong", history=hist, op=op, accepted=got, model=want)
             if got is False and mgr.database != before:
@@ -129,7 +130,10 @@ def apply_op(mgr, model, op, res, hist):
             try:
                 mgr.remove_entry(op[1])
             except Exception as e:  # noqa
-                res.viol("remove_entry_raised", history=hist, op=op, error=repr(e)[:200])
+                if want:  # a present entry could not be removed
+                    res.viol("remove_entry_raised", history=hist, op=op, error=repr(e)[:200])
+                else:  # refusing to remove an absent formula loudly is not a violation (the database is compared below)
+                    res.count("remove_of_absent_formula_raised")
             accepted, rejected = int(want), int(not want)
         else:
             items = [{"formula": f, "smiles": s} for f, s in op[1]]
